@@ -258,15 +258,22 @@ def _sc_setup(n, mode):
     import oqupy
     from oqupy.process_tensor import SimpleProcessTensor
     dt = 0.1
+    rot = None
+    if mode.endswith("+rot"):          # everything written in another basis: the coupling operator is not diagonal
+        mode = mode[:-4]
+        rot = probes.haar_unitary(n + 1 if mode == "td" else 2 * n + 1, 3, "syscache")
     if mode == "td":          # one position per step
         d = n + 1
-        sysm = probes.clock_system("td", d, 1, 0, dt, 0.0)
+        sysm = probes.clock_system("td", d, 1, 0, dt, 0.0, rot=rot)
         pos = lambda k: k % d
     else:                     # time-independent: one position per half step
         d = 2 * n + 1
-        sysm = probes.clock_system("static", d, 1, 1, dt, 0.0)
+        sysm = probes.clock_system("static", d, 1, 1, dt, 0.0, rot=rot)
         pos = lambda k: (2 * k) % d
     op = np.diag(SC_PRIMES[:d])
+    if rot is not None:
+        op = rot @ op @ rot.conj().T
+        op = (op + op.conj().T) / 2
     corr = oqupy.PowerLawSD(alpha=0.3, zeta=1.0, cutoff=2.0, cutoff_type="exponential", temperature=0.5)
     bath = oqupy.Bath(op, corr)
     pt = SimpleProcessTensor(d, dt=dt)
@@ -275,6 +282,8 @@ def _sc_setup(n, mode):
     pt.compute_caps()
     rho = np.zeros((d, d), dtype=complex)
     rho[0, 0] = 1.0
+    if rot is not None:
+        rho = rot @ rho @ rot.conj().T
     val = lambda i, j: SC_PRIMES[pos(i)] * SC_PRIMES[pos(j)]
     return sysm, bath, pt, rho, val, dt
 
@@ -519,7 +528,7 @@ def run(ctx):
             if hk not in seen_h:
                 seen_h.add(hk)
                 sc_cases.append(c)
-    sjobs = [(c, scn, ("td", "static")[i % 2]) for i, c in enumerate(sc_cases)]
+    sjobs = [(c, scn, ("td", "static", "td+rot", "static+rot")[i % 4]) for i, c in enumerate(sc_cases)]
     for j, mm in zip(sjobs, core.pmap(syscache_job, sjobs, chunksize=16)):
         hd = [[h["op"], h["q1"], h["q2"]] for h in j[0]["hist"]]
         ctx.case({"syscache": hd, "supplied": j[0]["start"], "system": j[2]},
